@@ -442,7 +442,7 @@ class DiHypergraph:
         remove_node
 
         """
-        for n in nodes:
+        for n in list(nodes):  # `nodes` may be a live view of this dihypergraph
             if n not in self._node:
                 warn(f"Node {n} not in dihypergraph")
                 continue
@@ -882,7 +882,7 @@ class DiHypergraph:
         remove_edge : remove a single edge.
 
         """
-        for idx in ebunch:
+        for idx in list(ebunch):  # `ebunch` may be a live view of this dihypergraph
             edge = self._edge[idx].copy()
 
             for node in edge["in"]:
